@@ -56,6 +56,195 @@ example :
     (s.folders.map (fun g => (g.files.map (·.id), g.deletedFiles.map (·.id)))) = [([], []), ([2], [3]), ([], [])] := by
   decide
 
+/-! ### the statements of C15 read off the invariant -/
+
+/-- Live folder names are unique, and live file names are unique within every folder (as lists without repetition). -/
+theorem C15_live_names_unique {s : State} (h : Inv s) :
+    (s.folders.map Folder.name).Nodup ∧
+    ∀ g, g ∈ s.folders ∨ g ∈ s.deletedFolders → (g.files.map File.name).Nodup :=
+  ⟨nodup_map_of_inj Folder.id Folder.name h.liveIds h.uniqueNames,
+   fun g hg => nodup_map_of_inj File.id File.name (h.folder g hg).1.liveIds (h.folder g hg).1.uniqueNames⟩
+
+/-- Every folder is in exactly one of `folders` / `deleted_folders` (no uuid occurs twice across both) and its `deleted`
+flag says which; the same for the files of every folder. -/
+theorem C15_partition {s : State} (h : Inv s) :
+    ((s.folders ++ s.deletedFolders).map Folder.id).Nodup ∧
+    (∀ g ∈ s.folders ++ s.deletedFolders, (g.deleted = true ↔ g ∈ s.deletedFolders) ∧ (g.deleted = false ↔ g ∈ s.folders)) ∧
+    ∀ g ∈ s.folders ++ s.deletedFolders,
+      ((g.files ++ g.deletedFiles).map File.id).Nodup ∧
+      ∀ f ∈ g.files ++ g.deletedFiles, (f.deleted = true ↔ f ∈ g.deletedFiles) ∧ (f.deleted = false ↔ f ∈ g.files) := by
+  refine ⟨?_, ?_, ?_⟩
+  · rw [List.map_append, List.nodup_append]
+    refine ⟨h.liveIds, h.delIds, ?_⟩
+    intro a ha b hb
+    obtain ⟨a0, ha0, rfl⟩ := List.mem_map.mp ha
+    obtain ⟨b0, hb0, rfl⟩ := List.mem_map.mp hb
+    exact h.disjoint a0 ha0 b0 hb0
+  · intro g hg
+    rcases List.mem_append.mp hg with hl | hd
+    · have := h.liveFlag g hl
+      refine ⟨⟨(fun e => by rw [this] at e; cases e), fun hd => h.delFlag g hd⟩, ⟨fun _ => hl, fun _ => this⟩⟩
+    · have := h.delFlag g hd
+      refine ⟨⟨fun _ => hd, fun _ => this⟩, ⟨(fun e => by rw [this] at e; cases e), fun hl => h.liveFlag g hl⟩⟩
+  · intro g hg
+    have gi := (h.folder g (List.mem_append.mp hg)).1
+    refine ⟨?_, ?_⟩
+    · rw [List.map_append, List.nodup_append]
+      refine ⟨gi.liveIds, gi.delIds, ?_⟩
+      intro a ha b hb
+      obtain ⟨a0, ha0, rfl⟩ := List.mem_map.mp ha
+      obtain ⟨b0, hb0, rfl⟩ := List.mem_map.mp hb
+      exact gi.disjoint a0 ha0 b0 hb0
+    · intro f hf
+      rcases List.mem_append.mp hf with hl | hd
+      · have := gi.liveFlag f hl
+        refine ⟨⟨(fun e => by rw [this] at e; cases e), fun hd => gi.delFlag f hd⟩, ⟨fun _ => hl, fun _ => this⟩⟩
+      · have := gi.delFlag f hd
+        refine ⟨⟨fun _ => hd, fun _ => this⟩, ⟨(fun e => by rw [this] at e; cases e), fun hl => gi.liveFlag f hl⟩⟩
+
+/-- A request that passes the guards of the `folder` route is answered by the live folder of that name, and inside it a
+request that passes the guards of the `file` route is answered by the live file of that name: the name-keyed routes
+never lead to a deleted namesake. -/
+theorem C15_routes_lead_to_live {s : State} (h : Inv s) :
+    (∀ g ∈ s.folders, lookupRoute s.folderRoutes g.name = some g.id ∧ findFolderById s g.id = some g) ∧
+    ∀ g, g ∈ s.folders ∨ g ∈ s.deletedFolders → ∀ f ∈ g.files,
+      lookupRoute g.fileRoutes f.name = some f.id ∧ (g.files ++ g.deletedFiles).find? (fun y => y.id == f.id) = some f := by
+  refine ⟨?_, ?_⟩
+  · intro g hg
+    have hguard : folderGuard s g.name = true := by
+      unfold folderGuard
+      rw [getFolder_incl_of_live (getFolder_of_live h hg), getFolder_of_live h hg]
+      simp [h.liveFlag g hg]
+    obtain ⟨g0, hg0, hn0, _, _, hfind⟩ := folderGuard_spec h hguard
+    have := eq_of_key_eq Folder.id h.liveIds hg0 hg (h.uniqueNames g0 hg0 g hg hn0)
+    subst this
+    exact ⟨h.routes g0 hg, hfind⟩
+  · intro g hg f hf
+    have gi := (h.folder g hg).1
+    refine ⟨gi.routes f hf, ?_⟩
+    cases hfind : (g.files ++ g.deletedFiles).find? (fun y => y.id == f.id) with
+    | none =>
+      have := List.find?_eq_none.mp hfind f (List.mem_append.mpr (Or.inl hf))
+      simp at this
+    | some f0 =>
+      have hid : f0.id = f.id := by simpa using List.find?_some hfind
+      rw [file_eq_of_id gi hf (List.mem_of_find?_eq_some hfind) hid]
+
+/-! ### the per-tick counters -/
+
+/-- What one answered operation does to `(num_file_creations, num_file_deletions)`. -/
+def tallyStep (op : Op) (o : Out) (cd : Nat × Nat) : Nat × Nat :=
+  match op, o with
+  | .preTick, _ => (0, 0)
+  | .createFile .., .success => (cd.1 + 1, cd.2)
+  | .deleteFile .., .success => (cd.1, cd.2 + 1)
+  | _, _ => cd
+
+def tally : List Op → List Out → Nat × Nat → Nat × Nat
+  | op :: ops, o :: os, cd => tally ops os (tallyStep op o cd)
+  | _, _, cd => cd
+
+theorem createFolder_counters (s : State) (n : Name) :
+    (createFolder s n).1.numCreations = s.numCreations ∧ (createFolder s n).1.numDeletions = s.numDeletions := by
+  rw [createFolder_eq]; cases getFolder s n <;> exact ⟨rfl, rfl⟩
+
+theorem viaFolder_counters (s : State) (F : Name) (k : Folder → Option (Folder × Out)) :
+    (viaFolder s F k).1.numCreations = s.numCreations ∧ (viaFolder s F k).1.numDeletions = s.numDeletions := by
+  unfold viaFolder
+  split
+  · exact ⟨rfl, rfl⟩
+  · split
+    · exact ⟨rfl, rfl⟩
+    · split
+      · exact ⟨rfl, rfl⟩
+      · split <;> exact ⟨rfl, rfl⟩
+
+/-- Every operation moves the counters exactly as `tallyStep` says: `pre_timestep` zeroes both, a successful
+`create/file` adds one creation, a successful `delete/file` adds one deletion, nothing else touches them
+(in particular `["folder",F,"delete",x]` deletes a file without counting it — the code's behaviour). -/
+theorem C15_counters_step (s : State) (op : Op) :
+    ((step s op).1.numCreations, (step s op).1.numDeletions) = tallyStep op (step s op).2 (s.numCreations, s.numDeletions) := by
+  cases op with
+  | createFile F x force =>
+    simp only [step]
+    unfold createFile
+    by_cases hc : (!force && (getFile s (if F = "" then "root" else F) x).isSome) = true
+    · rw [if_pos hc]; rfl
+    · rw [if_neg hc]
+      have ht : (createFileTarget s F).1.numCreations = s.numCreations ∧ (createFileTarget s F).1.numDeletions = s.numDeletions := by
+        unfold createFileTarget
+        split
+        · cases getFolder s F with
+          | some g => exact ⟨rfl, rfl⟩
+          | none => exact createFolder_counters s F
+        · exact ⟨rfl, rfl⟩
+      cases heq : createFileTarget s F with
+      | mk s1 og =>
+        rw [heq] at ht
+        cases og with
+        | none => simp only [tallyStep]; rw [ht.1, ht.2]
+        | some g =>
+          simp only
+          unfold createFileIn
+          cases g.getFile x <;> simp only [tallyStep, updFolder] <;> rw [ht.1, ht.2]
+  | createFolder F => simp only [step, tallyStep]; rw [(createFolder_counters s F).1, (createFolder_counters s F).2]
+  | deleteFile F x =>
+    simp only [step]; unfold deleteFile
+    split
+    · rfl
+    · cases getFolder s F with
+      | none => rfl
+      | some g => simp only; cases g.getFile x <;> rfl
+  | deleteFolder F =>
+    simp only [step]; unfold deleteFolder
+    cases getFolder s F with
+    | none => rfl
+    | some g => simp only; split <;> rfl
+  | restoreFile F x =>
+    simp only [step]; unfold restoreFile
+    cases getFolder s F with
+    | none => rfl
+    | some g => simp only; cases g.getFile x true <;> rfl
+  | restoreFolder F =>
+    simp only [step]; unfold restoreFolder
+    cases getFolder s F true <;> rfl
+  | access F x => rfl
+  | folderVerb F v => simp only [step, tallyStep]; rw [(viaFolder_counters s F _).1, (viaFolder_counters s F _).2]
+  | folderDelete F x => simp only [step, tallyStep]; rw [(viaFolder_counters s F _).1, (viaFolder_counters s F _).2]
+  | fileVerb F x v => simp only [step, tallyStep]; rw [(viaFolder_counters s F _).1, (viaFolder_counters s F _).2]
+  | fsFileVerb F x v =>
+    simp only [step]; unfold fsFileVerb
+    cases getFolder s F with
+    | none => rfl
+    | some g =>
+      simp only
+      cases g.getFile x with
+      | none => rfl
+      | some f => simp only; cases f.verb v <;> rfl
+  | preTick => rfl
+  | tick => rfl
+
+/-- Along any operation sequence the counters are the tally of the answered operations. -/
+theorem C15_counters_tally (s : State) (ops : List Op) :
+    ((run s ops).1.numCreations, (run s ops).1.numDeletions) = tally ops (run s ops).2 (s.numCreations, s.numDeletions) := by
+  induction ops generalizing s with
+  | nil => rfl
+  | cons op ops ih =>
+    simp only [run, tally]
+    rw [ih, C15_counters_step]
+
+/-- The counters start every tick at zero: `pre_timestep` zeroes both, whatever happened before … -/
+theorem C15_counters_zero_at_tick_start (s : State) :
+    (step s .preTick).1.numCreations = 0 ∧ (step s .preTick).1.numDeletions = 0 := ⟨rfl, rfl⟩
+
+/-- … and from there they count exactly the successful `create/file` and `delete/file` requests of the tick. -/
+theorem C15_counters_count_since_tick_start (s : State) (ops : List Op) :
+    let r := run s (.preTick :: ops)
+    (r.1.numCreations, r.1.numDeletions) = tally ops r.2.tail (0, 0) := by
+  simp only [run, List.tail_cons]
+  rw [C15_counters_tally]
+  rfl
+
 /-! ### nothing raises -/
 
 /-- In a state satisfying `Inv` no file-system request answers with an exception: the root folder exists for
@@ -241,6 +430,72 @@ theorem C15_create_existing_file_refused_or_noop {s : State} (h : Inv s) {g : Fo
       intro a ha
       have hk : a.id ≠ g.id := fun e => h.disjoint g hg a ha e.symm
       simp [hk]
+
+/-! ### a deleted (or never-created) item is unavailable -/
+
+/-- The operations that act on, or inside, the folder named `F` — everything except creation and `restore/folder`. -/
+def Op.usesFolder (F : Name) : Op → Bool
+  | .deleteFile F' _ | .deleteFolder F' | .restoreFile F' _ | .access F' _ | .folderVerb F' _ | .folderDelete F' _
+  | .fileVerb F' _ _ | .fsFileVerb F' _ _ => F' == F
+  | _ => false
+
+/-- The operations that act on the file `x` of folder `F` — everything except creation and `restore/file`. -/
+def Op.usesFile (F x : Name) : Op → Bool
+  | .deleteFile F' x' | .access F' x' | .folderDelete F' x' | .fileVerb F' x' _ | .fsFileVerb F' x' _ => F' == F && x' == x
+  | _ => false
+
+/-- When no live folder is named `F` (the folder is deleted or was never created), every request on it or on
+anything inside it is refused with `failure` and changes nothing. Only `create/…` and `restore/folder` get through. -/
+theorem C15_deleted_folder_unavailable {s : State} {F : Name} (hno : ∀ g ∈ s.folders, g.name ≠ F) (op : Op)
+    (hop : op.usesFolder F = true) : step s op = (s, .failure) := by
+  have hg := getFolder_none_of hno
+  have hguard := folderGuard_false_of_no_live hno
+  cases op <;> simp only [Op.usesFolder, beq_iff_eq, Bool.false_eq_true] at hop <;> subst hop <;>
+    simp [step, deleteFile, deleteFolder, restoreFile, access, getFile, viaFolder, fsFileVerb, hg, hguard, ofBool]
+
+example : ∃ s, Inv s ∧ (∃ g ∈ s.deletedFolders, g.name = "fa") ∧ ∀ g ∈ s.folders, g.name ≠ "fa" :=
+  ⟨(run (init none) [.createFile "fa" "a" false, .deleteFolder "fa"]).1, C15_inv_reachable _ _, by decide, by decide⟩
+
+/-- When the live folder `F` has no live file named `x` (the file is deleted or was never created), every request on
+that file is refused with `failure` and changes nothing. Only `create/file` and `restore/file` (and the completion of a
+folder restore) get through. -/
+theorem C15_deleted_file_unavailable {s : State} (h : Inv s) {g : Folder} {x : Name} (hg : g ∈ s.folders)
+    (hno : ∀ f ∈ g.files, f.name ≠ x) (op : Op) (hop : op.usesFile g.name x = true) : step s op = (s, .failure) := by
+  have hgf := getFolder_of_live h hg
+  have hff := getFile_none_of hno
+  have hvia : ∀ k : Folder → Option (Folder × Out), k g = some (g, .failure) → viaFolder s g.name k = (s, .failure) := by
+    intro k hk
+    rcases viaFolder_out h g.name k with ⟨hnone, _⟩ | ⟨g0, hg0, hn0, ⟨hk0, _⟩ | ⟨g', o, hk0, e⟩⟩
+    · exact absurd rfl (hnone g hg)
+    · have := eq_of_key_eq Folder.id h.liveIds hg0 hg (h.uniqueNames g0 hg0 g hg hn0)
+      subst this; rw [hk] at hk0; cases hk0
+    · have := eq_of_key_eq Folder.id h.liveIds hg0 hg (h.uniqueNames g0 hg0 g hg hn0)
+      subst this
+      rw [hk] at hk0
+      simp only [Option.some.injEq, Prod.mk.injEq] at hk0
+      rw [e, ← hk0.1, ← hk0.2, updFolder_self h hg]
+  cases op <;> simp only [Op.usesFile, Bool.and_eq_true, beq_iff_eq, Bool.false_eq_true] at hop
+  case deleteFile F' x' => obtain ⟨rfl, rfl⟩ := hop; simp [step, deleteFile, getFile, hgf, hff]
+  case access F' x' => obtain ⟨rfl, rfl⟩ := hop; simp [step, access, getFile, hgf, hff, ofBool]
+  case fsFileVerb F' x' v => obtain ⟨rfl, rfl⟩ := hop; simp [step, fsFileVerb, hgf, hff]
+  case folderDelete F' x' =>
+    obtain ⟨rfl, rfl⟩ := hop
+    simp only [step]
+    apply hvia
+    rcases removeFileByName_spec (g := g) (n := x') with ⟨f, hfm, hfn, _⟩ | ⟨_, he⟩
+    · exact absurd hfn (hno f hfm)
+    · simp [he, ofBool]
+  case fileVerb F' x' v =>
+    obtain ⟨rfl, rfl⟩ := hop
+    simp only [step]
+    apply hvia
+    have e1 := fileRequest_state (h.folder g (Or.inl hg)).1 x' v
+    have e2 := fileRequest_refused v hno
+    exact congrArg some (Prod.ext e1 e2)
+
+example : ∃ s g, Inv s ∧ g ∈ s.folders ∧ g.name = "fa" ∧ (∃ f ∈ g.deletedFiles, f.name = "a") ∧ ∀ f ∈ g.files, f.name ≠ "a" :=
+  ⟨(run (init none) [.createFile "fa" "a" false, .deleteFile "fa" "a"]).1, _, C15_inv_reachable _ _,
+    List.mem_cons_of_mem _ (List.mem_cons_self ..), by decide, by decide, by decide⟩
 
 /-! ### translator tie: the tables regenerated from the source agree with what the model assumes -/
 
